@@ -1,6 +1,361 @@
 import DswModel.Model.Spiderweb
 import DswModel.Lemmas.CoderDefs
+import DswModel.Lemmas.DeBruijn
 /-! Helper lemmas about `argsort`, `digitToPos`, `posToDigit`, `selectArc` (C18, C01, C05). -/
 namespace Dsw
+
+/-! ### live columns -/
+
+theorem mem_live_iff (a : Acc) (v : Int) (j : Nat) : j ∈ a.live v ↔ j < 4 ∧ a.ent v j ≥ 0 := by
+  unfold Acc.live
+  simp [List.mem_filter]
+
+theorem live_lt_four (a : Acc) (v : Int) {j : Nat} (h : j ∈ a.live v) : j < 4 :=
+  ((mem_live_iff a v j).1 h).1
+
+theorem live_ent_nonneg (a : Acc) (v : Int) {j : Nat} (h : j ∈ a.live v) : a.ent v j ≥ 0 :=
+  ((mem_live_iff a v j).1 h).2
+
+/-- the live columns are listed in strictly increasing order. -/
+theorem live_pairwise_lt (a : Acc) (v : Int) : (a.live v).Pairwise (· < ·) := by
+  unfold Acc.live
+  exact List.Pairwise.filter _ List.pairwise_lt_range
+
+theorem live_nodup (a : Acc) (v : Int) : (a.live v).Nodup :=
+  (live_pairwise_lt a v).imp (fun h => Nat.ne_of_lt h)
+
+theorem live_length_le_four (a : Acc) (v : Int) : (a.live v).length ≤ 4 := by
+  unfold Acc.live
+  exact Nat.le_trans (List.length_filter_le _ _) (by simp)
+
+theorem outDeg_le_four (a : Acc) (v : Int) : a.outDeg v ≤ 4 := live_length_le_four a v
+
+/-! ### generic list facts -/
+
+theorem list_getD_eq_getElem {α} (l : List α) (d : α) {i : Nat} (h : i < l.length) :
+    l.getD i d = l[i] := (List.getElem_eq_getD d).symm
+
+theorem list_idxOf_cons_ne {x y : Nat} (l : List Nat) (h : x ≠ y) :
+    (x :: l).idxOf y = l.idxOf y + 1 := by
+  have hb : (x == y) = false := by simpa using h
+  simp [List.idxOf_cons, hb]
+
+theorem idxOf_getD_of_nodup {l : List Nat} (h : l.Nodup) {d : Nat} (hd : d < l.length) :
+    l.idxOf (l.getD d 0) = d := by
+  induction l generalizing d with
+  | nil => simp at hd
+  | cons x xs ih =>
+    rw [List.nodup_cons] at h
+    cases d with
+    | zero => simp
+    | succ d =>
+      have hd' : d < xs.length := by simpa using hd
+      have hmem : xs.getD d 0 ∈ xs := by
+        rw [list_getD_eq_getElem _ _ hd']; exact List.getElem_mem hd'
+      have hne : x ≠ xs.getD d 0 := fun e => h.1 (e ▸ hmem)
+      simp only [List.getD_cons_succ]
+      rw [list_idxOf_cons_ne _ hne, ih h.2 hd']
+
+theorem getD_idxOf_of_mem {l : List Nat} {p : Nat} (h : p ∈ l) : l.getD (l.idxOf p) 0 = p := by
+  have hlt : l.idxOf p < l.length := List.idxOf_lt_length_of_mem h
+  rw [list_getD_eq_getElem _ _ hlt]
+  exact List.getElem_idxOf hlt
+
+/-- in a list strictly sorted by `key`, the position of a member equals the number of members
+with a strictly smaller key. -/
+theorem idxOf_eq_length_filter_of_sorted (key : Nat → Int) {l : List Nat}
+    (hs : l.Pairwise (fun x y => key x < key y)) {p : Nat} (hp : p ∈ l) :
+    l.idxOf p = (l.filter fun x => decide (key x < key p)).length := by
+  induction l with
+  | nil => simp at hp
+  | cons x xs ih =>
+    rw [List.pairwise_cons] at hs
+    by_cases hx : x = p
+    · subst hx
+      have : (xs.filter fun y => decide (key y < key x)) = [] := by
+        rw [List.filter_eq_nil_iff]
+        intro y hy
+        have := hs.1 y hy
+        simp; omega
+      simp [this]
+    · have hp' : p ∈ xs := by
+        rcases List.mem_cons.1 hp with h | h
+        · exact absurd h.symm hx
+        · exact h
+      have hlt : key x < key p := hs.1 p hp'
+      rw [list_idxOf_cons_ne _ hx, ih hs.2 hp']
+      simp [hlt]
+
+/-- counting positions whose entry satisfies `q` is counting entries that satisfy `q`. -/
+theorem length_filter_range_getD {α} (l : List α) (d : α) (q : α → Bool) :
+    ((List.range l.length).filter fun i => q (l.getD i d)).length = (l.filter q).length := by
+  have hl : l = (List.range l.length).map fun i => l.getD i d := by
+    apply List.ext_getElem
+    · simp
+    · intro i h1 h2
+      simp [List.getElem?_eq_getElem h1]
+  conv => rhs; rw [hl]
+  rw [List.filter_map, List.length_map]
+  rfl
+
+/-! ### `insertByKey` / `argsort` -/
+
+theorem insertByKey_perm (key : Nat → Int) (i : Nat) (l : List Nat) :
+    (insertByKey key i l).Perm (i :: l) := by
+  induction l with
+  | nil => simp [insertByKey]
+  | cons j r ih =>
+    simp only [insertByKey]
+    split
+    · exact List.Perm.refl _
+    · exact (List.Perm.cons j ih).trans (List.Perm.swap i j r)
+
+theorem foldl_insertByKey_perm (key : Nat → Int) (l init : List Nat) :
+    (l.foldl (fun acc i => insertByKey key i acc) init).Perm (l ++ init) := by
+  induction l generalizing init with
+  | nil => simp
+  | cons x xs ih =>
+    simp only [List.foldl_cons, List.cons_append]
+    refine (ih _).trans ?_
+    exact ((insertByKey_perm key x init).append_left xs).trans List.perm_middle
+
+theorem insertByKey_sorted (key : Nat → Int) (i : Nat) {l : List Nat}
+    (h : l.Pairwise (fun x y => key x ≤ key y)) :
+    (insertByKey key i l).Pairwise (fun x y => key x ≤ key y) := by
+  induction l with
+  | nil => simp [insertByKey]
+  | cons j r ih =>
+    rw [List.pairwise_cons] at h
+    simp only [insertByKey]
+    split
+    · rename_i hlt
+      rw [List.pairwise_cons]
+      refine ⟨?_, List.pairwise_cons.2 h⟩
+      intro y hy
+      rcases List.mem_cons.1 hy with rfl | hy
+      · omega
+      · have := h.1 y hy; omega
+    · rename_i hge
+      rw [List.pairwise_cons]
+      refine ⟨?_, ih h.2⟩
+      intro y hy
+      rcases List.mem_cons.1 ((insertByKey_perm key i r).mem_iff.1 hy) with rfl | hy
+      · omega
+      · exact h.1 y hy
+
+theorem foldl_insertByKey_sorted (key : Nat → Int) (l : List Nat) {init : List Nat}
+    (h : init.Pairwise (fun x y => key x ≤ key y)) :
+    (l.foldl (fun acc i => insertByKey key i acc) init).Pairwise (fun x y => key x ≤ key y) := by
+  induction l generalizing init with
+  | nil => simpa using h
+  | cons x xs ih => exact ih (insertByKey_sorted key x h)
+
+/-- `argsort` returns a permutation of the positions. -/
+theorem argsort_perm (keys : List Int) : (argsort keys).Perm (List.range keys.length) := by
+  unfold argsort
+  simpa using foldl_insertByKey_perm (fun j => keys.getD j 0) (List.range keys.length) []
+
+theorem argsort_nodup (keys : List Int) : (argsort keys).Nodup :=
+  (argsort_perm keys).nodup_iff.2 List.nodup_range
+
+theorem argsort_length (keys : List Int) : (argsort keys).length = keys.length := by
+  simpa using (argsort_perm keys).length_eq
+
+theorem mem_argsort (keys : List Int) (p : Nat) : p ∈ argsort keys ↔ p < keys.length := by
+  rw [(argsort_perm keys).mem_iff, List.mem_range]
+
+/-- `argsort` is (weakly) sorted by key. -/
+theorem argsort_sorted_le (keys : List Int) :
+    (argsort keys).Pairwise (fun x y => keys.getD x 0 ≤ keys.getD y 0) := by
+  unfold argsort
+  exact foldl_insertByKey_sorted (fun j => keys.getD j 0) _ List.Pairwise.nil
+
+/-- with pairwise distinct keys `argsort` is strictly sorted by key. -/
+theorem argsort_sorted_lt (keys : List Int) (hd : keys.Nodup) :
+    (argsort keys).Pairwise (fun x y => keys.getD x 0 < keys.getD y 0) := by
+  have h1 := argsort_sorted_le keys
+  have h2 := argsort_nodup keys
+  have h3 : ∀ x ∈ argsort keys, x < keys.length := fun x hx => (mem_argsort keys x).1 hx
+  have h12 := h1.and h2
+  refine h12.imp_of_mem ?_
+  intro x y hx hy hxy
+  have hxl := h3 x hx
+  have hyl := h3 y hy
+  have hne : keys.getD x 0 ≠ keys.getD y 0 := by
+    rw [list_getD_eq_getElem _ _ hxl, list_getD_eq_getElem _ _ hyl]
+    intro e
+    exact hxy.2 ((List.getElem_inj hd).1 e)
+  omega
+
+/-- with distinct keys, the rank of position `p` in `argsort keys` is the number of keys smaller
+than `keys[p]`. -/
+theorem idxOf_argsort_eq_rank (keys : List Int) (hd : keys.Nodup) {p : Nat} (hp : p < keys.length) :
+    (argsort keys).idxOf p = (keys.filter fun x => decide (x < keys.getD p 0)).length := by
+  rw [idxOf_eq_length_filter_of_sorted (fun j => keys.getD j 0) (argsort_sorted_lt keys hd)
+    ((mem_argsort keys p).2 hp)]
+  rw [((argsort_perm keys).filter _).length_eq]
+  exact length_filter_range_getD keys 0 (fun x => decide (x < keys.getD p 0))
+
+/-! ### `digitToPos` / `posToDigit` -/
+
+theorem keys_length (t : Tbl) (v : Int) (used : List Nat) : (t.keys v used).length = used.length := by
+  simp [Tbl.keys]
+
+theorem keys_eq_map_arcKey (t : Tbl) (v : Int) (used : List Nat) :
+    t.keys v used = used.map (arcKey (some t) v) := rfl
+
+theorem digitToPos_lt (tbl : Option Tbl) (v : Int) (used : List Nat) {d : Nat} (hd : d < used.length) :
+    digitToPos tbl v used d < used.length := by
+  cases tbl with
+  | none => exact hd
+  | some t =>
+    simp only [digitToPos]
+    have hl : d < (argsort (t.keys v used)).length := by
+      rw [argsort_length, keys_length]; exact hd
+    rw [list_getD_eq_getElem _ _ hl]
+    have := (mem_argsort (t.keys v used) _).1 (List.getElem_mem hl)
+    rwa [keys_length] at this
+
+theorem posToDigit_lt (tbl : Option Tbl) (v : Int) (used : List Nat) {p : Nat} (hp : p < used.length) :
+    posToDigit tbl v used p < used.length := by
+  cases tbl with
+  | none => exact hp
+  | some t =>
+    simp only [posToDigit]
+    have hm : p ∈ argsort (t.keys v used) := by
+      rw [mem_argsort, keys_length]; exact hp
+    have := List.idxOf_lt_length_of_mem hm
+    rwa [argsort_length, keys_length] at this
+
+theorem posToDigit_digitToPos (tbl : Option Tbl) (v : Int) (used : List Nat) {d : Nat}
+    (hd : d < used.length) : posToDigit tbl v used (digitToPos tbl v used d) = d := by
+  cases tbl with
+  | none => rfl
+  | some t =>
+    simp only [posToDigit, digitToPos]
+    apply idxOf_getD_of_nodup (argsort_nodup _)
+    rw [argsort_length, keys_length]; exact hd
+
+theorem digitToPos_posToDigit (tbl : Option Tbl) (v : Int) (used : List Nat) {p : Nat}
+    (hp : p < used.length) : digitToPos tbl v used (posToDigit tbl v used p) = p := by
+  cases tbl with
+  | none => rfl
+  | some t =>
+    simp only [posToDigit, digitToPos]
+    apply getD_idxOf_of_mem
+    rw [mem_argsort, keys_length]; exact hp
+
+/-! ### `selectArc` / `arcDigit` -/
+
+theorem selectArc_mem (a : Acc) (tbl : Option Tbl) (v : Int) {d : Nat} (hd : d < a.outDeg v) :
+    selectArc a tbl v d ∈ a.live v := by
+  have h := digitToPos_lt tbl v (a.live v) hd
+  simp only [selectArc]
+  rw [list_getD_eq_getElem _ _ h]
+  exact List.getElem_mem h
+
+theorem selectArc_lt_four (a : Acc) (tbl : Option Tbl) (v : Int) {d : Nat} (hd : d < a.outDeg v) :
+    selectArc a tbl v d < 4 := live_lt_four a v (selectArc_mem a tbl v hd)
+
+theorem arcDigit_selectArc (a : Acc) (tbl : Option Tbl) (v : Int) {d : Nat} (hd : d < a.outDeg v) :
+    arcDigit a tbl v (selectArc a tbl v d) = d := by
+  have h := digitToPos_lt tbl v (a.live v) hd
+  simp only [arcDigit, selectArc]
+  rw [idxOf_getD_of_nodup (live_nodup a v) h]
+  exact posToDigit_digitToPos tbl v (a.live v) hd
+
+theorem arcDigit_lt (a : Acc) (tbl : Option Tbl) (v : Int) {j : Nat} (hj : j ∈ a.live v) :
+    arcDigit a tbl v j < a.outDeg v :=
+  posToDigit_lt tbl v (a.live v) (List.idxOf_lt_length_of_mem hj)
+
+theorem selectArc_arcDigit (a : Acc) (tbl : Option Tbl) (v : Int) {j : Nat} (hj : j ∈ a.live v) :
+    selectArc a tbl v (arcDigit a tbl v j) = j := by
+  simp only [arcDigit, selectArc]
+  rw [digitToPos_posToDigit tbl v (a.live v) (List.idxOf_lt_length_of_mem hj)]
+  exact getD_idxOf_of_mem hj
+
+/-- `selectArc` is injective on the digits below the out-degree. -/
+theorem selectArc_inj (a : Acc) (tbl : Option Tbl) (v : Int) {d e : Nat} (hd : d < a.outDeg v)
+    (he : e < a.outDeg v) (h : selectArc a tbl v d = selectArc a tbl v e) : d = e := by
+  rw [← arcDigit_selectArc a tbl v hd, ← arcDigit_selectArc a tbl v he, h]
+
+/-- `arcDigit` is injective on the live columns. -/
+theorem arcDigit_inj (a : Acc) (tbl : Option Tbl) (v : Int) {i j : Nat} (hi : i ∈ a.live v)
+    (hj : j ∈ a.live v) (h : arcDigit a tbl v i = arcDigit a tbl v j) : i = j := by
+  rw [← selectArc_arcDigit a tbl v hi, ← selectArc_arcDigit a tbl v hj, h]
+
+/-! ### the digit is the rank -/
+
+theorem distinctKeys_none (a : Acc) (v : Int) : DistinctKeys a none v := by
+  unfold DistinctKeys
+  rw [List.Nodup, List.pairwise_map]
+  refine (live_pairwise_lt a v).imp ?_
+  intro x y h
+  simp only [arcKey]
+  omega
+
+theorem arcRank_lt (a : Acc) (tbl : Option Tbl) (v : Int) {j : Nat} (hj : j ∈ a.live v) :
+    arcRank a tbl v j < a.outDeg v := by
+  unfold arcRank Acc.outDeg
+  apply List.length_filter_lt_length_iff_exists.2
+  exact ⟨j, hj, by simp⟩
+
+theorem arcDigit_eq_arcRank (a : Acc) (tbl : Option Tbl) (v : Int) {j : Nat} (hj : j ∈ a.live v)
+    (hd : DistinctKeys a tbl v) : arcDigit a tbl v j = arcRank a tbl v j := by
+  cases tbl with
+  | none =>
+    simp only [arcDigit, posToDigit, arcRank]
+    apply idxOf_eq_length_filter_of_sorted (arcKey none v) _ hj
+    refine (live_pairwise_lt a v).imp ?_
+    intro x y h
+    simp only [arcKey]
+    omega
+  | some t =>
+    have hp : (a.live v).idxOf j < (t.keys v (a.live v)).length := by
+      rw [keys_length]; exact List.idxOf_lt_length_of_mem hj
+    have hk : (t.keys v (a.live v)).getD ((a.live v).idxOf j) 0 = arcKey (some t) v j := by
+      rw [list_getD_eq_getElem _ _ hp]
+      simp [keys_eq_map_arcKey]
+    have hd' : (t.keys v (a.live v)).Nodup := hd
+    simp only [arcDigit, posToDigit, arcRank]
+    rw [idxOf_argsort_eq_rank _ hd' hp, hk, keys_eq_map_arcKey, List.filter_map, List.length_map]
+    rfl
+
+/-! ### tables -/
+
+theorem createRandomShuffles_size (k : Nat) (shuffle : Nat → List Int → List Int) :
+    (createRandomShuffles k shuffle).size = 4 ^ k := by
+  simp [createRandomShuffles]
+
+theorem createRandomShuffles_permRows (k : Nat) (shuffle : Nat → List Int → List Int)
+    (hs : ∀ i l, (shuffle i l).Perm l) : Tbl.PermRows (createRandomShuffles k shuffle) := by
+  intro r hr
+  simp only [createRandomShuffles, Array.mem_toList_iff, Array.mem_map] at hr
+  obtain ⟨i, _, rfl⟩ := hr
+  exact hs i _
+
+/-- a row that is a permutation of `0..3` has distinct entries on the live columns. -/
+theorem distinctKeys_of_permRows (a : Acc) (t : Tbl) (v : Nat) (hv : v < t.size) (ht : t.PermRows) :
+    DistinctKeys a (some t) v := by
+  have hrow : Acc.row t (v : Int) = t[v] := by
+    rw [Acc.row_natCast]; simp [Array.getD, hv]
+  have hperm : (t[v]).toList.Perm [0, 1, 2, 3] := ht _ (by simp)
+  have hnd : (t[v]).toList.Nodup := hperm.nodup_iff.2 (by decide)
+  have hlen : (t[v]).size = 4 := by simpa using hperm.length_eq
+  unfold DistinctKeys
+  rw [List.Nodup, List.pairwise_map]
+  refine (live_pairwise_lt a v).imp_of_mem ?_
+  intro x y hx hy hxy
+  have hx4 : x < (t[v]).size := by have := live_lt_four a v hx; omega
+  have hy4 : y < (t[v]).size := by have := live_lt_four a v hy; omega
+  simp only [arcKey, hrow]
+  intro e
+  rw [Array.getD_eq_getD_getElem?, Array.getD_eq_getD_getElem?] at e
+  simp only [Array.getElem?_eq_getElem hx4, Array.getElem?_eq_getElem hy4, Option.getD_some] at e
+  have : x = y := by
+    have h' : (t[v]).toList[x]'(by simpa using hx4) = (t[v]).toList[y]'(by simpa using hy4) := by
+      simpa using e
+    exact (List.getElem_inj hnd).1 h'
+  omega
 
 end Dsw
